@@ -43,7 +43,7 @@ def check_case(case):
 @st.composite
 def cases(draw, tier):
     big = tier == "thorough"
-    case = draw(sim_cases(n_markets=(1, 3), index_prob=1, steps=(1, 20) if big else (1, 8), probes=True, always_events=True,
+    case = draw(sim_cases(n_markets=(1, 3), index_prob=1, steps=(1, 20) if big else (1, 8), probes=True, always_events=True, rules=True,
                           horizon=45 if big else 22, hft=True))
     cfg = case["config"]
     ses = cfg["simulation"]["sessions"]
